@@ -42,8 +42,17 @@ Statement -> do-notation
   loop { .. }                      `for _ in List.range fuel do ..` followed by `none` (fuel exhausted), `fuel : Nat` becomes
                                    the first parameter of the function
   recursion (f calls f)            structural recursion on an added `fuel : Nat` (`none` when exhausted); callers pass `fuel`
-  closures bound by `let`          `let f := fun a b => ..` (Option-valued when the body can panic)
+  closures bound by `let`          hoisted into `R.<fn>_<name> (captured..) (params..)`, the local name is its partial application
+  `obj.method(|a, b, c, d| {..})`  for a callback-taking chess-core method: a loop over the list of its invocations
+  callback parameter `func(a, b)`  the invocations are collected, in order, into a list that the function returns
   return e; / tail e               return e / pure e
+Loops: every `for` / `loop` becomes two definitions, `R.<fn>_loopK_step` (ONE iteration: the loop-carried variables in, a
+`ForInStep` of them out; `break` = `.done`, `continue` = `.yield`) and `R.<fn>_loopK` = `forIn list init step`.  A loop that
+contains `return` carries a first component `early : Option <function result>` (`return e` = `.done (some e, ..)`, tested
+right after the loop); a `loop` carries `exited : Bool`.  A loop whose body calls the enclosing function stays inline.
+Long bodies: `cuts=(i, j, ..)` in the driver cut the top-level statement list; the statements from a cut on become
+`R.<fn>_partK (live variables..)`, called in tail position by the part before (same result type, `return` unchanged).
+Lean names are chosen in the driver (`pos_perft` for chess/perft.rs: `R.perft` is the search-side translation).
 """
 import os
 import re
@@ -2025,7 +2034,9 @@ class Translator(imp.Translator):
             lines.extend(self.block(e[1], c.child(), ind, "unit"))
             return
         if k == "try":
-            return self.do_expr_stmt(e[1], c, ind, lines)       # `write!(..)?`: writing to a String cannot fail
+            if e[1][0] != "macro" or e[1][1] != "write":
+                raise TranslateError("`?` is only supported on `write!(..)` (writing to a String cannot fail)")
+            return self.do_expr_stmt(e[1], c, ind, lines)
         if k == "macro":
             return self.do_macro_stmt(e, c, ind, lines)
         if k == "mcall":
@@ -2749,7 +2760,7 @@ def generate():
     T.function(read("src/chess/mv.rs"), "flipped", "chess/mv.rs", "Mv::flipped", "mv_flipped", self_name="self_")
     T.function(read("src/uci/moves.rs"), "moves", "uci/moves.rs", "moves::moves", "moves", u64="BB")
     T.function(read("src/uci/position.rs"), "position", "uci/position.rs", "position::position", "position", u64="BB")
-    T.function(read("src/chess/perft.rs"), "perft", "chess/perft.rs", "Position::perft", "perft")
+    T.function(read("src/chess/perft.rs"), "perft", "chess/perft.rs", "Position::perft", "pos_perft")
     T.function(read("src/uci/setoption.rs"), "setoption", "uci/setoption.rs", "setoption::setoption", "setoption")
     T.function(read("src/uci/go.rs"), "parse_go", "uci/go.rs", "parse_go", "parse_go")
     T.out.append("end Rawr.R\n")
